@@ -25,7 +25,7 @@ def enabled_mutator_classes(namespace, exclude=()):
     return res
 
 
-def enumerate_fixpoint(res, spec, exclude=(), limit=None):
+def enumerate_fixpoint(res, spec, exclude=(), limit=None, reparse=False):
     """Every proposal of every enabled mutator on the final in-memory input,
     judged by the command model.  Returns (n_proposals, first accepted
     proposal or None).  Must be called right after sim.execute (module state of
@@ -34,6 +34,11 @@ def enumerate_fixpoint(res, spec, exclude=(), limit=None):
     exprs = res.rec.finals.get('hierarchical')
     if exprs is None:
         return 0, None, 'no-final'
+    if reparse:
+        # what a second ddSMT run on the output file would start from
+        if res.final_out is None:
+            return 0, None, 'no-output'
+        exprs = list(m.nodeio.parse_smtlib(res.final_out.decode()))
     cfg = refrule.compare_cfg(spec['opts'])
     g, gcc = props.golden_runs(res)
     if g is None:
@@ -141,16 +146,25 @@ class C02(props.Prop):
         n, acc, why = enumerate_fixpoint(res, spec)
         v.probes['proposals_judged'] += n
         v.probes['oracle.' + why] += 1
+        where = 'in-memory final input'
+        if acc is None and rec.writes:
+            # the same on a fresh parse of the output file (what running
+            # ddSMT again on its own output would enumerate)
+            n2, acc, why2 = enumerate_fixpoint(res, spec, reparse=True)
+            v.probes['proposals_judged_reparsed'] += n2
+            v.probes['oracle_reparsed.' + why2] += 1
+            where = 'output file (re-parsed)'
         v.probes['writes'] += len(rec.writes)
         starts = res.stderr.count('Starting over')
         v.probes['starting_over'] += starts
         if acc is not None:
             v.violate(
                 'not-a-fixpoint',
-                f'C02:not-a-fixpoint',
+                'C02:not-a-fixpoint' if where.startswith('in-memory') else
+                'C02:not-a-fixpoint:output-file',
                 f'after normal termination the proposal of "{acc["mutator"]}" '
                 f'at BFS node {acc["node_bfs_index"]} ({acc["node"]}) of the '
-                f'final input is accepted by the command',
+                f'{where} is accepted by the command',
                 **acc,
                 final=rec.text(rec.dig(reftok.tree_tokens(rec.finals['hierarchical'])))[:300])
         v.nontrivial = n >= 1 and len(rec.writes) >= 1
